@@ -144,6 +144,47 @@ def pure(ctx, R, py, modules):
     return n
 
 
+_KNOWN_ATTRS = None
+
+
+def _known_attrs(py):
+    """every attribute name a method call can legitimately use: names defined anywhere in the package (functions, classes,
+    attributes stored into objects, module-level names), the methods of the builtin types, and the public names of the libraries
+    the package imports (their own dir(); nothing of the package itself is imported or run)"""
+    global _KNOWN_ATTRS
+    if _KNOWN_ATTRS is not None:
+        return _KNOWN_ATTRS
+    pkg = set()
+    for m in py.mods.values():
+        for n in ast.walk(m.tree):
+            if isinstance(n, (ast.FunctionDef, ast.ClassDef)):
+                pkg.add(n.name)
+            elif isinstance(n, ast.Attribute) and isinstance(n.ctx, ast.Store):
+                pkg.add(n.attr)
+            elif isinstance(n, ast.Assign):
+                for t in n.targets:
+                    if isinstance(t, ast.Name):
+                        pkg.add(t.id)
+    for t in (str, list, dict, set, tuple, int, float, bytes, frozenset, complex, object, type(None), BaseException):
+        pkg |= set(dir(t))
+    import importlib
+    for modname in ("numpy", "numpy.random", "ctypes", "json", "pathlib", "copy", "random", "math", "os", "os.path", "io", "functools",
+                    "itertools", "re", "sys", "warnings", "time"):
+        try:
+            mod = importlib.import_module(modname)
+            pkg |= set(dir(mod))
+        except Exception:
+            pass
+    try:
+        import numpy, pathlib, ctypes, io
+        pkg |= set(dir(numpy.ndarray)) | set(dir(pathlib.Path)) | set(dir(ctypes.CDLL)) | set(dir(io.TextIOWrapper)) | \
+            set(dir(numpy.random.RandomState))
+    except Exception:
+        pass
+    _KNOWN_ATTRS = pkg
+    return pkg
+
+
 def names(ctx, R, py, modules):
     """every name and every self-attribute used in the module's functions resolves (parameter, local, enclosing function,
     module binding incl. star imports, builtin; attribute / method / property of the class or its bases): otherwise reaching
@@ -165,6 +206,12 @@ def names(ctx, R, py, modules):
             for x in battr:
                 ctx.violation(R, x, f._qual, "self.%s" % x.attr, "no such attribute, method or property in the class: reaching "
                               "this line raises AttributeError")
+            known = _known_attrs(py)
+            for c in pyfe.calls_in(f):
+                if isinstance(c.func, ast.Attribute) and c.func.attr not in known and not c.func.attr.startswith("engineexport_"):
+                    ctx.violation(R, c, f._qual, pyfe.src(c)[:70], "a method named `%s` is defined nowhere (not in the package, not on "
+                                  "the builtin types, not in the libraries it uses): reaching this call raises AttributeError" %
+                                  c.func.attr)
     return n
 
 
